@@ -1392,6 +1392,8 @@ reply_parse(struct evdns_base *base, u8 *packet, int length)
 			break;
 		} else if (type == TYPE_CNAME) {
 			char cname[EVDNS_NAME_MAX];
+			/* the alias is only valid as long as the CNAME record is */
+			ttl_r = MIN(ttl_r, ttl);
 			if (name_parse(packet, length, &j, cname,
 				sizeof(cname))<0)
 				goto err;
